@@ -71,11 +71,15 @@ def _spec_inputs(k):
         # by storage rounding only, which it does as long as the combination happens before the result is stored
         (1, (8, 8), "double", True, [1, 4], False, 0.0),
         (1, (8, 8), "single", True, [1, 4], False, 0.0),
+        # the same with constant K on 1.4 m x 1.2 m cells (growth ~e^17, beyond -log(eps) of single precision): exists for the
+        # single-vs-double clause only, which storage rounding satisfies at any growth
+        (1, (8, 8), "double", True, [1, 4], False, 0.0),
+        (1, (8, 8), "single", True, [1, 4], False, 0.0),
     ]
     si, modes, prec, fp, lv, ana, halo = table[k]
     ny, nx = shapes[si]
     j, i = np.meshgrid(np.arange(ny), np.arange(nx), indexing="ij")
-    kq = {1: 0, 3: 2, 12: 0, 13: 5, 15: 14, 19: 18}.get(k, k)  # a single-precision spec and its double-precision twin share the source
+    kq = {1: 0, 3: 2, 12: 0, 13: 5, 15: 14, 19: 18, 21: 20}.get(k, k)  # a single-precision spec and its double-precision twin share the source
     q = np.cos(0.9 * i + 0.3 * j * j) + 0.2 * i + 0.15 * kq * np.sin(1.7 * j + kq)
     z = np.array([0.05, 0.5, 1.2, 2.2, 3.5, 5.0])
     u = 1.1 * np.log(z / 0.04) * (0.9 if not ana else 0 * z + 1)
@@ -85,6 +89,8 @@ def _spec_inputs(k):
         K = np.full(6, 0.7)
     else:
         K = 0.4 * 0.3 * z
+    if k in (20, 21):
+        K = np.full(6, 0.6)  # height-independent diffusivity: the decay rate at the top node is the decay rate everywhere
     dscale = 1.5 if k == 10 else (1.0 + 3e-8) if k == 13 else 1.0
     if k == 11:
         u, K = 0.8 * u, 1.3 * K
@@ -92,22 +98,22 @@ def _spec_inputs(k):
         u, K = u * (1.0 + 1e-8), K * (1.0 - 2e-8)
     if k in (14, 15):
         q = (q + 0.8) * 1e-8
-    cx, cy = (9.0, 7.5) if k in (18, 19) else (240.0, 240.0 if k in (16, 17) else 180.0)
+    cx, cy = (9.0, 7.5) if k in (18, 19) else (1.4, 1.2) if k in (20, 21) else (240.0, 240.0 if k in (16, 17) else 180.0)
     return dict(q=q, z=z, profiles=(u, v, K, 0.7 * K, 1.2 * K), domain=(cx * nx * dscale, cy * ny), levels=lv, modes=modes,
                 meas_pt=(cx * (nx // 3), cy * (ny // 2)) if fp else (0.0, 0.0), bg=0.0 if k in (14, 15) else 1.0, footprint=fp, analytic=ana,
                 halo=halo, precision=prec)
 
 
-NSPEC = 20
+NSPEC = 22
 _QBUF = {}
 _PERSIST = {}
 
 
 class ArgumentMutated(Exception):
     pass
-TWIN = {1: 0, 3: 2, 15: 14, 19: 18}  # single-precision spec -> its double-precision twin
-SHAPE_OF = [0, 0, 1, 1, 2, 2, 3, 1, 3, 0, 0, 0, 0, 2, 1, 1, 4, 4, 1, 1]
-HIGH_GROWTH = (18, 19)  # rounding of the double-precision result is ~eps*e^10, not eps: compared at (1e-12 + 4096 eps e^11.1) = 6e-8 across threads
+TWIN = {1: 0, 3: 2, 15: 14, 19: 18, 21: 20}  # single-precision spec -> its double-precision twin
+SHAPE_OF = [0, 0, 1, 1, 2, 2, 3, 1, 3, 0, 0, 0, 0, 2, 1, 1, 4, 4, 1, 1, 1, 1]
+HIGH_GROWTH = (18, 19, 20, 21)  # rounding of the double-precision result is ~eps*e^10, not eps: compared at (1e-12 + 4096 eps e^11.1) = 6e-8 across threads
 
 
 def _represent(a, rep):
@@ -319,7 +325,7 @@ class History:
             fails.append(f"spec {k}: in a fresh process, the same solve repeated after reset_fft_manager() is not bit-identical to "
                          f"the first one (max diff {rdiff:.3e})")
         single = c.dtype == np.float32
-        rel = (1e-12 if k not in HIGH_GROWTH else 6e-8) if not single else 1e-6
+        rel = (1e-12 if k not in HIGH_GROWTH else (6e-8 if k < 20 else 1.2e-4)) if not single else (1e-6 if k < 20 else 1.2e-4)
         for name, a, b in (("conc", c, rc), ("flux", f, rf)):
             if a.shape != b.shape or a.dtype != b.dtype:
                 fails.append(f"spec {k}: {name} has shape/dtype {a.shape}/{a.dtype}, fresh process gives {b.shape}/{b.dtype}")
